@@ -68,7 +68,7 @@ R_NULL = _rule("R-NULL", "r_null", all_for=("C07",), text="a pointer parameter t
                "dominates (armed for the parameters where this holds at every dereference on the reviewed tree, tables/null_params.json)")
 
 
-def _both_reprs(name, fn):
+def _both_reprs(name, fn, cfgs=(("K0", ""), ("K3", "/32bit"))):
     """Rules about the arithmetic representation are decided for the 64-bit (K0) AND the 32-bit (K3) limb layout on every
     run, also in the quick tier: the pinned suite builds only one of them, so a slip in the other is exactly what the
     tests cannot see.  K1 / K2 share K0's layout and add nothing; K3 is already covered when the run reaches it."""
@@ -99,17 +99,21 @@ def _both_reprs(name, fn):
         os.replace(tmp, p)
         return obs, st
 
+    LABEL = {"/32bit": "[10x26 field, 8x32 scalar] ", "/int128": "[native 128-bit integers] ", "/int128struct": "[emulated 128-bit integers] "}
+
     def run(cfg, tier):
         if cfg != "K0":
             return [], {}
-        obs, st = _memo(name, "K0", cached)
-        obs3, st3 = _memo(name, "K3", cached)
-        for o in obs3:
-            o.oid = o.oid + "/32bit"
-            o.text = "[10x26 field, 8x32 scalar] " + o.text
-        st = dict(st)
-        st.update({"32bit_" + k: v for k, v in st3.items()})
-        return obs + obs3, st
+        allobs, allst = [], {}
+        for (c, suffix) in cfgs:
+            obs, st = _memo(name, c, cached)
+            for o in obs:
+                if suffix:
+                    o.oid = o.oid + suffix
+                    o.text = LABEL.get(suffix, "") + o.text
+            allobs += obs
+            allst.update({(suffix.strip("/") + "_" if suffix else "") + k: v for k, v in st.items()})
+        return allobs, allst
     return run
 
 
@@ -123,6 +127,16 @@ def _pack_fn(c):
     return r_pack.obligations(sxlib.program(c))
 
 
+def _limb_fn(c):
+    import r_limb
+    return r_limb.obligations(sxlib.program(c))
+
+
+R_LIMB = {"name": "R-LIMB", "run": _both_reprs("R-LIMB", _limb_fn, cfgs=(("K1", "/int128"), ("K2", "/int128struct"), ("K3", "/32bit")))}
+RULE_TEXT["R-LIMB"] = ("the straight-line multi-precision kernels (scalar mul_512 / sqr_512 / reduce_512 / reduce / add / mul_shift_var, field mul / sqr inner, normalize_weak, half, "
+                       "negate, mul_int, add) satisfy their specification as a polynomial identity between exact integer forms of their outputs and inputs, for every input their "
+                       "contract admits, in the three portable configurations (native / emulated 128-bit integers, 32-bit limbs); a carry, high half or truncated bits that can "
+                       "be non-zero and are dropped are reported with the statement that loses them")
 R_CONST = {"name": "R-CONST", "run": _both_reprs("R-CONST", _const_fn)}
 R_PACK = {"name": "R-PACK", "run": _both_reprs("R-PACK", _pack_fn)}
 RULE_TEXT["R-PACK"] = ("byte <-> limb packing (fe_set_b32_mod, fe_get_b32, fe_to_storage, fe_from_storage, scalar_set_b32, scalar_get_b32, read_be32/64) is the canonical "
@@ -182,13 +196,16 @@ _prop("C03", ALL_RULES,
 _prop("C04", ALL_RULES,
       "Key algebra, structural clauses.",
       "commutation of secret and public operations, correctness of heap sort beyond its length argument, lexicographic order")
-_prop("C05", [R_FLOW, R_PAIR, R_CONST, R_PACK, R_CAP],
+_prop("C05", [R_FLOW, R_PAIR, R_CONST, R_PACK, R_CAP, R_LIMB],
       "Arithmetic and hashing kernel — the clauses with a structural part: (hashing) caller lengths reach secp256k1_sha256_write unmodified "
       "(tagged hash, HMAC), sha256_write moves data pointer and remaining length together, sha256_transform compresses consecutive blocks; "
       "scratch checkpoints of the multi-scalar batches are restored on every exit; (data) every numeric constant and every entry of the precomputed ecmult / ecmult_gen "
-      "tables, as the compiler sees them in each configuration (4x64 and 8x32 limbs, 5x52 and 10x26), satisfies its defining identity (R-CONST).",
-      "the field / scalar / group / ecmult *algorithms* (carry chains, reductions, addition formulas, wNAF / comb recoding) and their cross-configuration bit-identity: statements "
-      "about 256-bit values computed at run time, out of reach of static analysis here (a seeded carry loss in scalar_mul_shift_var is NOT detected; declared not decided)")
+      "tables, as the compiler sees them in each configuration (4x64 and 8x32 limbs, 5x52 and 10x26), satisfies its defining identity (R-CONST); (kernels) the straight-line "
+      "multi-precision kernels of the three portable configurations compute their specification for every admitted input (R-LIMB: exact integer forms, polynomial identity).",
+      "the group law, wNAF / comb recoding, modular inverse and square root (data-dependent control flow, signed arithmetic), the x86-64 assembly kernels of the pinned build, "
+      "the full normalisation's final comparison, and bit-identity of whole computations across configurations",
+      assumptions=["R-LIMB: clang's computation types (recorded by sx on every operator) are the widths the arithmetic is carried out in; contracts of the kernels are the "
+                   "magnitude / limb bounds of field.h and scalar.h (fe_mul inputs magnitude 8, field elements up to magnitude 32 at the limb bounds secp256k1_fe_verify admits)"])
 _prop("C07", BOUNDS + [R_PAIR, R_SIZE, R_BOOL, R_ABORT],
       "Untrusted bytes, structural clauses.",
       "general in-bounds / UB-freedom of the proof verifiers (needs relational invariants such as npub = sum rsizes <= 128, outside the interval and linear-form domains: "
